@@ -120,6 +120,56 @@ def gen_script(rng, progs, npass, shutdown=None, faults=False, rpcs=True, group_
     return script
 
 
+def unknown_scenario(rng):
+    """signalling-failure stories: a process is driven into UNKNOWN by a failed delivery (EPERM) of a stop signal, of an
+    API signal -- possibly while a stop is already pending -- or of the SIGKILL escalation; then its child exits (or not),
+    and the daemon goes on: more passes, start/stop/signal requests for it, a shutdown"""
+    progs = [dict(name='p0', group='g0', gprio=5, prio=999, autostart=True, autorestart=rng.choice(['false', 'unexpected', 'true']),
+                  startsecs=rng.choice([0, 1]), startretries=3, exitcodes=[0], stopsignal=signal.SIGTERM, stopwaitsecs=rng.choice([1, 2]),
+                  stopasgroup=False, killasgroup=rng.random() < 0.3, dies_on='kill', die_delay=0, leaves_pipes_open=False),
+             dict(name='p1', group='g1', gprio=rng.choice([1, 5, 10]), prio=999, autostart=True, autorestart='unexpected', startsecs=1, startretries=3,
+                  exitcodes=[0], stopsignal=signal.SIGTERM, stopwaitsecs=1, stopasgroup=False, killasgroup=False, dies_on='any', die_delay=0,
+                  leaves_pipes_open=False)]
+    rid = [0]
+    def rpc(m, *a):
+        rid[0] += 1
+        return ('rpc', rid[0], 'supervisor.' + m, a)
+    script = [(1024, [])] * rng.choice([1, 2, 3])
+    story = rng.choice(['stop-fails', 'signal-fails', 'stop-then-signal-fails', 'escalation-fails', 'stop-then-stop-fails'])
+    fail = ('fault', 'kill', errno.EPERM, 1)
+    # (an RPC queued during one poll() is executed at the next one: the fault is armed in the pass that executes it)
+    if story == 'stop-fails':
+        script += [(1024, [rpc('stopProcess', 'g0:p0', rng.random() < 0.5)]), (256, [fail])]
+    elif story == 'signal-fails':
+        script += [(1024, [rpc('signalProcess', 'g0:p0', 'USR1')]), (256, [fail])]
+    elif story == 'stop-then-signal-fails':
+        script += [(512, [rpc('stopProcess', 'g0:p0', rng.random() < 0.5)]), (256, []),
+                   (256, [rpc('signalProcess', 'g0:p0', rng.choice(['USR1', 'HUP']))]), (128, [fail])]
+    elif story == 'stop-then-stop-fails':
+        script += [(512, [rpc('stopProcess', 'g0:p0', False)]), (256, []), (256, [rpc('signalProcess', 'g0:p0', '15')]), (128, [fail]),
+                   (128, [rpc('stopProcess', 'g0:p0', False)]), (128, [])]
+    else:
+        script += [(512, [rpc('stopProcess', 'g0:p0', rng.random() < 0.5)]), (256, []), (1024 * 3, [fail])]
+    for _ in range(rng.choice([0, 1, 2])):
+        script.append((rng.choice([256, 1024]), []))
+    if rng.random() < 0.8:
+        script.append((1024, [('exit', 'p0', rng.choice([0, 1, -9, -15]))]))
+    for _ in range(rng.choice([1, 3])):
+        script.append((1024, []))
+    tail = rng.choice(['start', 'stop', 'signal', 'shutdown', 'none', 'start'])
+    if tail == 'start':
+        script.append((1024, [rpc('startProcess', 'g0:p0', rng.random() < 0.5)]))
+    elif tail == 'stop':
+        script.append((1024, [rpc('stopProcess', 'g0:p0', rng.random() < 0.5)]))
+    elif tail == 'signal':
+        script.append((1024, [rpc('signalProcess', 'g0:p0', 'USR1')]))
+    elif tail == 'shutdown':
+        script.append((1024, [('sig', signal.SIGTERM)]))
+    if rng.random() < 0.5:
+        script.append((1024, [('exit', 'p0', rng.choice([0, 1]))]))
+    return progs, script + [(1024, [])] * 8
+
+
 def run_scenario(progs, script, **kw):
     k = SimKernel(progs, script, **kw)
     outcome = k.run()
